@@ -34,6 +34,9 @@ func checkC03(r *Run) propMeta {
 	checkCountEveryOccurrence(r)
 	checkParameterMergeTotal(r)
 	checkBoundFlagRole(r)
+	checkRewriterCaseForms(r, r.MustPkg("cypher/models/pgsql/translate"))
+	checkWithPathAliasAgreement(r, r.MustPkg("cypher/models/pgsql/translate"))
+	checkUnwindBeforeHarness(r, r.MustPkg("cypher/models/pgsql/translate"))
 	r.Floor("C03-a-parameter-closure", 5)
 	r.Floor("C03-b-dml-origin", 5) // node and edge creation, deletion, update, and at least one harness insert (harness builders may share one constructor)
 	r.Floor("C03-d-walk-error", 5)
